@@ -197,7 +197,14 @@ def illegal_effect(P, S, a, S2, ev, agent):
     own = smap[ax[i], ay[i]] - 1
     t = _forward_cell(ax[i], ay[i], ad[i] % 4, H, W)
     other = smap[t] - 1 if t is not None else -1
+    # a blocking shelf that is itself carried by another agent may be moved - by its carrier, on that agent's own legal move;
+    # that is not an effect of the ignored action (seen once the probes let the partners act while one agent deviates)
+    carried_by_other = t is not None and any(j != i and bool(ac[j]) and (ax[j], ay[j]) == tuple(t) for j in range(len(ax)))
+    if carried_by_other:
+        P.hit("rw_blocking_shelf_carried_by_another_agent")
     for k, what in ((own, "carried"), (other, "blocking")):
+        if what == "blocking" and carried_by_other:
+            continue
         if k >= 0 and (sx[k], sy[k]) != (tx[k], ty[k]):
             out.append(f"rw_illegal_shelves_unchanged: the {what} shelf {k} moved from {(sx[k], sy[k])} to {(tx[k], ty[k])}")
     eff = _effective_actions(P, S, a)
